@@ -27,7 +27,7 @@ def globalsWfB (n : Nat) (g : GlobalsM) : Bool := g.all fun l => l.all fun e => 
 
 /-- a match respects the quantifiers of the stanza's captures and has its full-match node in the tree -/
 def matchOKB (tree : Tree) (st : Stanza) (m : QMatch) : Bool :=
-  (st.captures.all fun c => c.2 != .zero && (c.2 != .one || !(m.nodes c.1).isEmpty)) &&
+  (st.captures.all fun c => c.2 != .zero) &&
   (match m.nodes fullMatchName with
    | n :: _ => (tree.node? n).isSome
    | [] => true)
